@@ -204,6 +204,8 @@ pub fn setsketch_params(variant: usize, m: usize) -> SetSketchParams {
     match variant {
         0 => SetSketchParams::new(1.001, m as u64, 20., 65534),
         1 => SetSketchParams::new(2.0, m as u64, 20., 62),
+        // same b, m, q as #0 but another rate a (a table or cache keyed by m, or by (b, m, q), would confuse them)
+        3 => SetSketchParams::new(1.001, m as u64, 5., 65534),
         _ => SetSketchParams::new(1.2, m as u64, 20., 3), // forces the upper clip
     }
 }
@@ -614,6 +616,7 @@ pub fn catalogue(sizes: &[usize], pin_pomh_seed: bool) -> Vec<Kind> {
         for variant in 0..3 {
             v.push(kind(format!("SetSketcher<u16> params#{} m={}", variant, m), true, false, true, 1, true, move || Box::new(ISet::<u16, FnvHasher>::new(variant, m))));
         }
+        v.push(kind(format!("SetSketcher<u16> params#3 (a = 5) m={}", m), true, false, true, 1, true, move || Box::new(ISet::<u16, FnvHasher>::new(3, m))));
         v.push(kind(format!("SetSketcher<u32> params#0 m={}", m), true, false, true, 1, true, move || Box::new(ISet::<u32, FnvHasher>::new(0, m))));
         v.push(kind(format!("SetSketcher<u8> params#0 m={} (overflowing registers)", m), true, false, true, 1, true, move || Box::new(ISet::<u8, FnvHasher>::new(0, m))));
         v.push(kind(format!("OptDensMinHash<f64> m={}", m), true, true, false, 1, true, move || Box::new(IOpt::<f64, FnvHasher>::new(m))));
